@@ -4,6 +4,7 @@
 cd "$(dirname "$0")/.."
 for d in seeded/*/; do
   id=$(basename $d)
+  if [ -n "${ONLY:-}" ] && ! echo "$id" | grep -Eq "$ONLY"; then continue; fi
   checks=$(/venv/bin/python -c "import json;print(' '.join(json.load(open('$d/meta.json'))['caught_by']))")
   wt=/dev/shm/mutwt-v-$id
   git -C /repo worktree remove --force $wt 2>/dev/null
